@@ -405,6 +405,58 @@ pub fn run(ctx: &Ctx) -> Report {
     });
     st = st.merge(st3);
 
+    // (5) large form bodies whose parameters are small: percent-escapes of unreserved characters, runs of empty
+    //     '&&' segments, many tiny parameters — the body is longer than a URI can be, what is folded is not
+    {
+        let mut big: Vec<(String, Vec<u8>)> = Vec::new();
+        for n in [21_844usize, 21_845, 21_846, 22_000, 30_000] {
+            big.push((format!("a= + {} x %41", n), format!("a={}", "%41".repeat(n)).into_bytes()));
+        }
+        for n in [65_530usize, 65_531, 65_532, 65_533, 65_534, 65_535, 65_536, 70_000, 200_000] {
+            big.push((format!("{} x & then a=b", n), format!("{}a=b", "&".repeat(n)).into_bytes()));
+            big.push((format!("a=b then {} x &", n), format!("a=b{}", "&".repeat(n)).into_bytes()));
+        }
+        big.push(("4000 tiny parameters".into(), (0..4000).map(|i| format!("p{:04}=v", i)).collect::<Vec<_>>().join("&").into_bytes()));
+        big.push(("20000 x %20 in one value".into(), format!("x={}", "%20".repeat(20_000)).into_bytes()));
+        big.push(("60000 plain bytes in one value".into(), format!("x={}", "v".repeat(60_000)).into_bytes()));
+        let n5 = big.len() as u64 * 2 * 2;
+        let base5 = base3 + n3 + 100;
+        let st5 = par_sweep(n5, |i, st| {
+            let (label, body) = &big[(i / 4) as usize];
+            let carrier = if i % 2 == 0 { Carrier::Header } else { Carrier::Query };
+            let s3 = (i / 2) % 2 == 1;
+            let params = match refmodel::canon::parse_query(std::str::from_utf8(body).unwrap()) {
+                Ok(p) => p,
+                Err(_) => crate::core::machinery_error("C12 (5): harness body does not parse"),
+            };
+            let mut plan = e2e::base_plan(carrier);
+            plan.method = "POST".into();
+            plan.url_params = vec![(b"u".to_vec(), b"1".to_vec())];
+            plan.body = body.clone();
+            plan.body_params = Some(params);
+            plan.headers.push(("Content-Type".into(), b"application/x-www-form-urlencoded".to_vec()));
+            plan.signed.push("content-type".into());
+            let built = build(&plan);
+            let mut cfg = Cfg::basic(now);
+            cfg.fold = true;
+            cfg.s3 = s3;
+            let case = Case { wire: WireReq::from_wire(&built.wire), cfg, prov: ProvSpec::standard() };
+            let before = st.violations.len();
+            let j = e2e::judge_into(base5 + i, &case, st);
+            st.nontrivial(&(label, i % 4, "big-form"));
+            if st.violations.len() > before {
+                if let Some(v) = st.violations.last_mut() {
+                    v.what = format!("large-form-body({}):{}", label, v.what);
+                    // the request is rebuilt from the label on replay; keep the file small
+                }
+            }
+            if !j.reference.accepted() {
+                crate::core::machinery_error(&format!("C12 (5) {}: the reference refuses its own request: {:?}", label, j.reference.error));
+            }
+        });
+        st = st.merge(st5);
+    }
+
     // (4) the named option values mean what they say (callers pick configurations through them)
     {
         use scratchstack_aws_signature::SignatureOptions;
@@ -430,7 +482,7 @@ pub fn run(ctx: &Ctx) -> Report {
     Report {
         stats: st,
         rule: format!(
-            "(1) every URL parameter list x every body parameter list, each of 0..2 (thorough: 0..3) pairs over names {{a,b}} x values {{1,2,empty}} (all same-name-in-both patterns) x {} content-type spellings (absent, exact, charset utf-8/UTF-8/utf8, extra parameter, valueless charset, iso-8859-1, bogus, case variant, longer type, text/plain, json, two headers in both orders, padded) x {{fold off, fold on, fold on + S3}} x carrier; each case signed two ways — F (body parameters as if appended to the URL, payload = empty) and V (URL only, payload = body) — and both judged by the reference verifier; returned body / URI compared with the statement; F and V never both accepted unless identical; (2) 133 undecodable bodies and 3 unknown charset labels x 3 bodies => InvalidBodyEncoding/400 with the provider untouched; (3) where folding does not apply — under {{default, S3, fold, S3+fold}}, with no / a signed / an unsigned X-Amz-Content-Sha256 header carrying the digest of the signed body, or UNSIGNED-PAYLOAD — every single-bit flip of every body byte (4 bodies incl. all 256 byte values), an append, a truncation, a replacement and an emptied body are refused, and the unchanged request (also the folded one, whose declared digest is not that of an empty body) is accepted. states = distinct reference canonical requests",
+            "(1) every URL parameter list x every body parameter list, each of 0..2 (thorough: 0..3) pairs over names {{a,b}} x values {{1,2,empty}} (all same-name-in-both patterns) x {} content-type spellings (absent, exact, charset utf-8/UTF-8/utf8, extra parameter, valueless charset, iso-8859-1, bogus, case variant, longer type, text/plain, json, two headers in both orders, padded) x {{fold off, fold on, fold on + S3}} x carrier; each case signed two ways — F (body parameters as if appended to the URL, payload = empty) and V (URL only, payload = body) — and both judged by the reference verifier; returned body / URI compared with the statement; F and V never both accepted unless identical; (2) 133 undecodable bodies and 3 unknown charset labels x 3 bodies => InvalidBodyEncoding/400 with the provider untouched; (3) where folding does not apply — under {{default, S3, fold, S3+fold}}, with no / a signed / an unsigned X-Amz-Content-Sha256 header carrying the digest of the signed body, or UNSIGNED-PAYLOAD — every single-bit flip of every body byte (4 bodies incl. all 256 byte values), an append, a truncation, a replacement and an emptied body are refused, and the unchanged request (also the folded one, whose declared digest is not that of an empty body) is accepted; (5) 27 form bodies of 65 kB .. 200 kB whose parameters are small (percent-escaped unreserved characters, runs of '&', 4000 tiny parameters) are folded and accepted on both carriers. states = distinct reference canonical requests",
             n_ct
         ),
         bounds: json!({"url_lists": n_lists, "body_lists": n_lists, "content_types": n_ct, "bit_flip_cases": n3}),
